@@ -89,7 +89,23 @@ def build(case):
     """-> OdeCall with .f .args .kw .ic (oracle initial condition) .N .G .lab .name"""
     import EoN
     name = case['entry']
-    G, lab = gen.build_graph(case['graph'])
+    if case.get('prehistory') and name in SIR_GRAPH + SIS_GRAPH + RHO_ONLY + NODE_LEVEL:
+        # the entry point has been called before on this very graph object, which was then edited in place
+        def warmup(G0, lab0):
+            f0 = getattr(EoN, name)
+            a0 = [G0, case.get('p', 0.5)] if 'discrete' in name else [G0, 0.7, 1.0]
+            k0 = {'tmax': 3} if 'discrete' in name else {'tmax': 1.0, 'tcount': 3}
+            if name.endswith('_pure_IC'):
+                a0.append([lab0(case['I0'][0])])
+            elif name in NODE_LEVEL:
+                k0['rho'] = 0.2
+            import warnings as _w
+            with _w.catch_warnings():
+                _w.simplefilter('ignore')
+                f0(*a0, **k0)
+        G, lab = gen.build_graph_with_history(case['graph'], case['prehistory'], warmup)
+    else:
+        G, lab = gen.build_graph(case['graph'])
     c = OdeCall()
     c.name, c.G, c.lab = name, G, lab
     n = case['graph']['n']
@@ -289,4 +305,8 @@ def random_ode_case(r, name, nmax=None):
         case['graph'] = g
         case['wm'] = m['wm']
         case['pass_nodelist'] = r.random() < 0.5
+    if r.random() < 0.12:
+        ph = gen.make_prehistory(r, case['graph'])
+        if ph:
+            case['prehistory'] = ph
     return case
